@@ -322,7 +322,7 @@ def _r13_single_expression(body_toks):
 
 
 def r13_inline_helpers(text, helpers, log):
-    """R13: `h(a, b)` -> `({ let p1__ = a; let p2__ = b; let p1 = p1__; let p2 = p2__; EXPR })` for every helper h in
+    """R13: `h(a, b)` -> `({ let (p1, p2): (T1, T2) = (a, b); EXPR })` (one parameter: `let p1: T1 = a;`) for every helper h in
     `helpers` (name -> (params, expr)). Arguments are evaluated once, in order, before the body — what a call does."""
     if not helpers:
         return text
@@ -363,8 +363,17 @@ def r13_inline_helpers(text, helpers, log):
                 nx = _next_code(toks, close)
                 if shc.body_open is None or nx != shc.body_close or pr is None or toks[pr].text not in ("{", ";", "}"):
                     continue
-            lets = "".join(f"let {p}__{'' if ty is None else ': ' + ty} = {a}; " for (p, ty), a in zip(params, args))
-            lets += "".join(f"let {p} = {p}__; " for (p, _ty) in params)
+            # arguments are evaluated once, left to right, before any parameter is bound (one tuple `let`; typed, so that
+            # the text never looks like a `let p =` of the caller that an anchor of a template names)
+            if all(ty is not None for (_p, ty) in params) and params:
+                if len(params) == 1:
+                    lets = f"let {params[0][0]}: {params[0][1]} = {args[0]}; "
+                else:
+                    lets = ("let (" + ", ".join(p for (p, _t) in params) + "): (" + ", ".join(t_ for (_p, t_) in params)
+                            + ") = (" + ", ".join(args) + "); ")
+            else:
+                lets = "".join(f"let {p}__{'' if ty is None else ': ' + ty} = {a}; " for (p, ty), a in zip(params, args))
+                lets += "".join(f"let {p} = {p}__; " for (p, _ty) in params)
             edit = (t.start, toks[close].end, ("{ " + lets + "\n" + expr + "\n}") if tail_only else ("({ " + lets + expr + " })"))
             log.append(("R13", f"call of helper `{t.text}` (a function without contract; " + ("statements, inlined in tail position" if tail_only else "single expression") + ") inlined"))
             break
@@ -450,6 +459,47 @@ def r14_slice_models(text, log):
                     continue
                 edit = (toks[rs].start, toks[close].end, f"vx_contains(&{recv}, {arg})")
                 log.append(("R14", f"`{recv}.contains(..)` -> model function vx_contains (prelude/std_specs.vrs)"))
+            break
+        if edit is None:
+            return text
+        text = apply_edits(text, [edit])
+    return text
+
+# ------------------------------------------------------------------------------------------------
+# R15: unnecessary lazy evaluation (clippy::unnecessary_lazy_evaluations, read backwards). In a function for which the
+# template names no closure, a closure that ignores its parameter and whose body is a path (a constant or a unit enum
+# variant: no evaluation, no side effect) is passed by value to the eager twin of the combinator:
+#   X.map_err(|_| P) -> X.or(Err(P))    X.unwrap_or_else(|_| P) / (|| P) -> X.unwrap_or(P)    X.ok_or_else(|| P) -> X.ok_or(P)
+# ------------------------------------------------------------------------------------------------
+_R15 = {"map_err": ("or", "Err({})", 1), "unwrap_or_else": ("unwrap_or", "{}", None), "ok_or_else": ("ok_or", "{}", 0)}
+_R15_ARG = re.compile(r"^\|\s*(_[A-Za-z0-9_]*)?\s*\|\s*([A-Za-z_][A-Za-z0-9_]*(?:\s*::\s*[A-Za-z_][A-Za-z0-9_]*)*)$", re.S)
+
+
+def r15_eager_twins(text, log):
+    for _round in range(8):
+        toks = lex(text)
+        edit = None
+        for k, t in enumerate(toks):
+            if t.kind != "ident" or t.text not in _R15:
+                continue
+            dot = _prev_code(toks, k)
+            par = _next_code(toks, k)
+            if dot is None or toks[dot].text != "." or par is None or toks[par].text != "(":
+                continue
+            close = match_close(toks, par)
+            arg = text[toks[par].end:toks[close].start].strip()
+            m = _R15_ARG.match(arg)
+            if not m:
+                continue
+            twin, fmt, nparams = _R15[t.text]
+            has_param = m.group(1) is not None
+            if nparams is not None and has_param != (nparams == 1):
+                continue
+            path = re.sub(r"\s+", "", m.group(2))
+            if path[0].islower() and "::" not in path:      # a local variable: moving it out of the closure may not be neutral
+                continue
+            edit = (t.start, toks[close].end, f"{twin}({fmt.format(path)})")
+            log.append(("R15", f"`.{t.text}({arg})` -> `.{twin}({fmt.format(path)})` (closure ignores its parameter, body is a path: eager twin)"))
             break
         if edit is None:
             return text
